@@ -172,6 +172,28 @@ fn classify_stall(dump: &SchedulerDump, n: usize) -> StallReport {
     StallReport { class: "unclassified stall".into(), owner: "C05", detail }
 }
 
+/// One liveness sample over the scheduler threads of the current run: `(live threads, all of them
+/// provably idle and scheduled)`. Idle = parked in the wait slot (coordinators) or spinning in
+/// `next()` with the thread's own loop counter advancing since the previous sample (workers).
+fn idle_sample(o: &crate::obs::Obs, last: &mut [u64]) -> (u32, bool) {
+    let mut live = 0u32;
+    let mut all_idle = true;
+    for (k, slot) in o.tslots.iter().enumerate() {
+        let role = slot.role.load(Ordering::Relaxed);
+        let spins = slot.spins.load(Ordering::Relaxed);
+        if role != 0 {
+            live += 1;
+            let parked = slot.parked.load(Ordering::Relaxed);
+            let spinning = role == 1 && spins >= last[k] + 2;
+            if !(parked || spinning) {
+                all_idle = false;
+            }
+        }
+        last[k] = spins;
+    }
+    (live, all_idle)
+}
+
 /// Execute `case` on grevm. Never panics: panics of the scheduler are caught and reported.
 pub fn run_grevm(
     case: &Case,
@@ -216,8 +238,13 @@ pub fn run_grevm(
         let soft = Duration::from_millis(if cfg!(miri) { 600_000 } else { 1500 });
         let hard = Duration::from_secs(if cfg!(miri) { 3600 } else { 90 });
         let mut last_seq = 0u64;
-        let mut last_spins = 0u64;
+        let mut last_slot_spins = vec![0u64; o.tslots.len()];
+        let expected_workers = match rc.entry {
+            Entry::ParallelExecute(k) => k as u64,
+            _ => rc.workers as u64,
+        };
         let mut stable = 0u32;
+        let mut unchanged = 0u32;
         let mut cancelled = false;
         let mut release_attempts = 0u32;
         let mut marks_seen = 0u64;
@@ -251,30 +278,36 @@ pub fn run_grevm(
                 break;
             }
             let seq = o.seq_now();
-            let spins = o.spins.load(Ordering::Relaxed);
             let busy = o.in_delay.load(Ordering::Relaxed) > 0 ||
                 IN_DB_DELAY.load(Ordering::SeqCst) > 0 ||
                 o.in_exec.load(Ordering::Relaxed) > 0;
+            // Quiescent = every scheduler thread this run is going to have has started, and every
+            // one still alive is provably idle *and scheduled*: parked in its wait slot, or
+            // spinning in `next()` with its own loop counter advancing between two samples. A
+            // thread that is merely runnable but not running (a loaded machine can leave a freshly
+            // spawned or pre-empted thread unscheduled for seconds) is neither, so such a sample
+            // never counts towards a stall.
+            let all_started = o.started[2].load(Ordering::Relaxed) >= 1 &&
+                o.started[3].load(Ordering::Relaxed) >= 1 &&
+                o.started[1].load(Ordering::Relaxed) >= expected_workers;
+            let (live, all_idle) = idle_sample(o, &mut last_slot_spins);
+            let quiescent = all_started && live > 0 && all_idle;
             if seq == last_seq && !busy && !cancelled {
+                unchanged += 1;
+            } else {
+                unchanged = 0;
+            }
+            if seq == last_seq && !busy && quiescent && !cancelled {
                 stable += 1;
             } else {
                 stable = 0;
             }
-            let spinning = spins != last_spins;
             last_seq = seq;
-            last_spins = spins;
-            // Stable: no event for >= 3 samples, nobody inside an injected delay, a database call or
-            // an execution, and the workers demonstrably get CPU time (they spin in next()).
-            // ... or no worker is left at all and every remaining coordinator is parked.
-            let no_workers = o.alive[1].load(Ordering::Relaxed) == 0;
-            let coordinators_parked = o.alive[2].load(Ordering::Relaxed) == o.parked[2].load(Ordering::Relaxed) &&
-                o.alive[3].load(Ordering::Relaxed) == o.parked[3].load(Ordering::Relaxed) &&
-                o.parked[2].load(Ordering::Relaxed) + o.parked[3].load(Ordering::Relaxed) > 0;
-            if stable >= 3 && (spinning || (no_workers && coordinators_parked)) && !cancelled {
-                // confirmation: on a heavily loaded machine a thread that was just unparked may not
-                // have run yet; a real stall is still there, unchanged, much later
+            if stable >= 3 && !cancelled {
+                // confirmation: a real stall is still there, unchanged, much later
                 std::thread::sleep(Duration::from_millis(1500));
-                if done.load(Ordering::SeqCst) || o.seq_now() != seq {
+                let (live2, idle2) = idle_sample(o, &mut last_slot_spins);
+                if done.load(Ordering::SeqCst) || o.seq_now() != seq || live2 == 0 || !idle2 {
                     stable = 0;
                     continue;
                 }
@@ -285,9 +318,14 @@ pub fn run_grevm(
             }
             if start.elapsed() > hard && !cancelled {
                 let dump = scheduler.verif_dump();
-                if stable >= 3 {
+                if unchanged >= 200 {
+                    // not a single event for a minute although nobody is inside an injected delay, a
+                    // database call or an execution, and the threads are neither parked nor
+                    // spinning: they block each other (lock cycle) - scheduling noise cannot
+                    // account for a minute
                     let mut rep = classify_stall(&dump, n);
-                    rep.class = format!("hang without spinning workers: {}", rep.class);
+                    rep.class = format!("hang: scheduler threads blocked outside their wait slots for a minute ({})", rep.class);
+                    rep.owner = "C05";
                     stall = Some(rep);
                 } else {
                     inconclusive = Some(format!("hard watchdog expired after {:?} without a stable state", start.elapsed()));
